@@ -104,6 +104,21 @@ def shard(args):
                     ob.check(f"{cls.__name__}/system-and-verbatim{sid}", O.sysof(w) == sp["system"] and all(a is b for a, b in zip(O.coords(w), want)) and type(w) is cls, repr(w))
                     if acc and mom == sp["momentum"]:
                         ob.check(f"{cls.__name__}/agrees-with-obj{sid}", type(w) is type(v) and O.sysof(w) == O.sysof(v) and all(a is b for a, b in zip(O.coords(w), O.coords(v))))
+        # ---- acceptance does not depend on the values: the same decision when every name is given the *same* value object
+        #      (an identity- or equality-based duplicate test would let `E=v, e=v` through) and for equal small integers
+        if names:
+            for vname, same in (("one-shared-object", T("shared")), ("equal-small-ints", 7), ("equal-floats", 2.5)):
+                vs = {n: same for n in names}
+                for cname, ctor, valid in [("obj", vector.obj, sp is not None)] + [(cls.__name__, cls, sp is not None and sp["dim"] == dim) for (dim, mom), cls in classes.items()]:
+                    try:
+                        ctor(**vs)
+                        a2 = True
+                    except TypeError:
+                        a2 = False
+                    except Exception as e:
+                        ob.check(f"{cname}/raises-only-TypeError/{vname}{sid}", False, f"{type(e).__name__}: {e}")
+                        continue
+                    ob.check(f"{cname}/accepted-iff-valid/{vname}{sid}", a2 == valid, dict(accepted=a2, valid=valid))
         # ---- value types: bool and non-numbers rejected (on valid sets)
         if sp is not None:
             for badval in (True, "1.0", None, [1.0], 1 + 2j):
